@@ -102,11 +102,16 @@ static int complete(const cbor_item_t* it) {
   return 1;
 }
 
-static long re0;
-static void op_begin(void) { re0 = va.reallocs + va.refused; }
+static long re0, refused0;
+static void op_begin(void) { re0 = va.reallocs; refused0 = va.refused; }
+/* now and then the allocator refuses one of the next few requests: the operation must fail and change nothing */
+static void maybe_fault(void) {
+  if (vh_randn(9) == 0) { va_fault_mode = VA_ONLY; va_fault_k = va.requests + (long)vh_randn(4); }
+}
 static void op_end(const char* name, long a0, long a1, long a2, long idx, long ret) {
-  fprintf(vh_out, "{\"e\":\"op\",\"name\":\"%s\",\"a\":[%ld,%ld,%ld],\"idx\":%ld,\"ret\":%ld,\"re\":%ld,\"live\":%ld,\"client\":[", name, a0, a1, a2, idx, ret,
-          va.reallocs + va.refused - re0, va.live);
+  va_fault_mode = VA_NONE;
+  fprintf(vh_out, "{\"e\":\"op\",\"name\":\"%s\",\"a\":[%ld,%ld,%ld],\"idx\":%ld,\"ret\":%ld,\"re\":%ld,\"x\":%ld,\"live\":%ld,\"client\":[", name, a0, a1, a2, idx, ret,
+          va.reallocs - re0, va.refused - refused0, va.live);
   int f = 1;
   for (int i = 0; i < NH; i++)
     if (H[i].crefs > 0) { fprintf(vh_out, "%s[%ld,%d]", f ? "" : ",", id_of(H[i].p), H[i].crefs); f = 0; }
@@ -123,6 +128,7 @@ static int slot_of(const cbor_item_t* p) {
   return -1;
 }
 static int add_ref(cbor_item_t* p) { /* the client received one more reference to p */
+  if (!p) return -1;
   int s = slot_of(p);
   if (s >= 0) { H[s].crefs++; return s; }
   for (int i = 0; i < NH; i++) if (H[i].crefs == 0) { H[i].p = p; H[i].crefs = 1; return i; }
@@ -165,6 +171,7 @@ static void history(int steps, int containers_only) {
       case 0: case 1: { /* new leaf */
         cbor_item_t* it = NULL;
         op_begin();
+        maybe_fault();
         switch (vh_randn(6)) {
           case 0: it = cbor_build_uint8((uint8_t)vh_rand()); break;
           case 1: it = cbor_build_negint32((uint32_t)vh_rand()); break;
@@ -181,6 +188,7 @@ static void history(int steps, int containers_only) {
         int def = (int)vh_randn(2);
         size_t cap = vh_randn(9);
         op_begin();
+        maybe_fault();
         cbor_item_t* it = def ? cbor_new_definite_array(cap) : cbor_new_indefinite_array();
         add_ref(it);
         op_end("NewArr", id_of(it), 0, 0, 0, id_of(it));
@@ -190,6 +198,7 @@ static void history(int steps, int containers_only) {
         int def = (int)vh_randn(2);
         size_t cap = vh_randn(5);
         op_begin();
+        maybe_fault();
         cbor_item_t* it = def ? cbor_new_definite_map(cap) : cbor_new_indefinite_map();
         add_ref(it);
         op_end("NewMap", id_of(it), 0, 0, 0, id_of(it));
@@ -197,6 +206,7 @@ static void history(int steps, int containers_only) {
       }
       case 4: {
         op_begin();
+        maybe_fault();
         cbor_item_t* it = vh_randn(2) ? cbor_new_indefinite_bytestring() : cbor_new_indefinite_string();
         add_ref(it);
         op_end("NewChunked", id_of(it), 0, 0, 0, id_of(it));
@@ -219,6 +229,7 @@ static void history(int steps, int containers_only) {
         int mv = k == 7 && will && !containers_only;
         long ia = id_of(A), ix = id_of(X);
         op_begin();
+        if (!mv) maybe_fault();
         bool ok;
         if (mv) { H[x].crefs--; ok = cbor_array_push(A, cbor_move(X)); }
         else ok = cbor_array_push(A, X);
@@ -239,6 +250,7 @@ static void history(int steps, int containers_only) {
         }
         long ia = id_of(A), ix = id_of(X);
         op_begin();
+        maybe_fault();
         bool ok = set ? cbor_array_set(A, idx, X) : cbor_array_replace(A, idx, X);
         op_end(set ? "Set" : "Replace", ia, ix, 0, (long)idx, ok);
         break;
@@ -262,6 +274,7 @@ static void history(int steps, int containers_only) {
         if (opt_inrange && cbor_map_is_definite(H[m].p) && cbor_map_size(H[m].p) >= cbor_map_allocated(H[m].p)) break;
         long im = id_of(H[m].p), ik = id_of(H[kk].p), iv = id_of(H[v].p);
         op_begin();
+        maybe_fault();
         bool ok = cbor_map_add(H[m].p, (struct cbor_pair){.key = H[kk].p, .value = H[v].p});
         op_end("MapAdd", im, ik, iv, 0, ok);
         break;
@@ -274,6 +287,7 @@ static void history(int steps, int containers_only) {
         if (c < 0) break;
         long is = id_of(H[s].p), ic = id_of(H[c].p);
         op_begin();
+        maybe_fault();
         bool ok = bs ? cbor_bytestring_add_chunk(H[s].p, H[c].p) : cbor_string_add_chunk(H[s].p, H[c].p);
         op_end("AddChunk", is, ic, 0, 0, ok);
         break;
@@ -305,6 +319,7 @@ static void history(int steps, int containers_only) {
         if (x < 0 || fs < 1) break;
         long ix = id_of(H[x].p);
         op_begin();
+        maybe_fault();
         cbor_item_t* r = cbor_build_tag(vh_rand(), H[x].p);
         add_ref(r);
         op_end("BuildTag", id_of(r), ix, 0, 0, id_of(r));
@@ -324,6 +339,7 @@ static void history(int steps, int containers_only) {
         if (x < 0 || fs < 1 || !complete(H[x].p) || vt_nodes(H[x].p) > 40) break;
         long ix = id_of(H[x].p);
         op_begin();
+        maybe_fault();
         cbor_item_t* r = cbor_copy(H[x].p);
         add_ref(r);
         op_end("Copy", ix, 0, 0, 0, id_of(r));
@@ -346,6 +362,7 @@ static void history(int steps, int containers_only) {
         }
         struct cbor_load_result r;
         op_begin();
+        maybe_fault();
         cbor_item_t* it = cbor_load(buf, n, &r);
         if (it) add_ref(it);
         op_end("Load", 0, 0, 0, 0, id_of(it));
